@@ -1,5 +1,6 @@
 """C19 — genotype indexing bijection; edit distance == Levenshtein (unbanded and banded)."""
 import copy
+import pickle
 import hashlib
 import itertools
 
@@ -75,6 +76,13 @@ def _check_one(Genotype, alleles, rng, counters):
     g2.__setstate__(st)
     if not (g2 == g) or (g2 != g) or sorted(g2.as_vector()) != sorted(alleles):
         raise Viol("state round trip of %r gives %r (state %r)" % (sorted(alleles), g2.as_vector(), st))
+    try:
+        gp = pickle.loads(pickle.dumps(g))
+    except Exception as e:
+        raise Viol("pickling Genotype(%r) (the save/restore protocol __getstate__/__setstate__ exists for) fails: %r" % (sorted(alleles), e))
+    if not (gp == g) or gp.get_index() != exp or sorted(gp.as_vector()) != sorted(alleles):
+        raise Viol("pickle round trip of %r gives %r" % (sorted(alleles), gp.as_vector()))
+    counters["gt_pickle_round_trips"] = counters.get("gt_pickle_round_trips", 0) + 1
     g3 = copy.deepcopy(g)
     if not (g3 == g) or sorted(g3.as_vector()) != sorted(alleles):
         raise Viol("deepcopy of %r gives %r" % (sorted(alleles), g3.as_vector()))
